@@ -41,4 +41,9 @@ Judge_forms(c) ==
   ELSE IF "perr" \in DOMAIN c THEN << Cl("C11.accept", "fail") >>
   ELSE IF ~Conforms(P.t, c.datum, P.st.names, Opts0) THEN << Cl("H.conforms", "fail") >>
   ELSE Concat(MapSeq(LAMBDA f : JudgeForm(c, P, f), c.forms))
+       \* the caller's dictionary after parsing (whole, or piece by piece) holds exactly the names the specification defines
+       \o << Tri("C12.dictionary.whole", { c.dict_mono[i] : i \in 1..Len(c.dict_mono) } = DOMAIN P.st.names),
+             IF "dict_after" \in DOMAIN c
+             THEN Tri("C12.dictionary.piecewise", { c.dict_after[i] : i \in 1..Len(c.dict_after) } = DOMAIN P.st.names)
+             ELSE Cl("C12.dictionary.piecewise", "skip") >>
 =============================================================================
